@@ -3,6 +3,8 @@ package props
 import (
 	"fmt"
 
+	"golang.org/x/tools/go/ssa"
+
 	"utilcheck/flow"
 	"utilcheck/pred"
 )
@@ -12,7 +14,7 @@ func init() {
 		ID:    "C19",
 		Title: "Random UUIDs are always version 4 / variant 1 and generation is thread-safe",
 		Run:   runC19,
-		Explanation: "C19.bits: bit-provenance evaluation of uu.RandomID over symbolic 63-bit draws a,b: Higher bits 15..12 must be the constants 0100, Lower bits 63..62 the constants 10, and the remaining 122 result bits copies of pairwise distinct source bits; composed with the bit-level reading of ID.Version/ID.Variant this makes Version()=4 and Variant()=1 on every draw. " +
+		Explanation: "C19.source: every value stored into the shared generator is rand.New(rand.NewSource(·)) — the premise under which a draw is 63 fresh bits. C19.bits: bit-provenance evaluation of uu.RandomID over symbolic 63-bit draws a,b: Higher bits 15..12 must be the constants 0100, Lower bits 63..62 the constants 10, and the remaining 122 result bits copies of pairwise distinct source bits; composed with the bit-level reading of ID.Version/ID.Variant this makes Version()=4 and Variant()=1 on every draw. " +
 			"C19.lock: lockset + who-may-touch: the only function referencing the package-level PRNG is the one that draws; every use is dominated by randomMutex.Lock() with a deferred Unlock; the PRNG value is never returned, stored, captured or passed; it receives only drawing methods — Seed is accepted only with a clock reading taken in place (a re-installed seed replays the stream within a run); RandomID touches no other package-level state.",
 		NotDecided:  []string{"absence of duplicates within a run and 'each of the 122 bits takes both values' are statistical properties of the math/rand stream", "the race detector's dynamic view (the lockset argument replaces it)"},
 		Assumptions: []string{"math/rand.Rand.Int63 returns a value with bit 63 clear", "math/rand.Rand is not goroutine-safe; sync.Mutex provides mutual exclusion"},
@@ -32,6 +34,58 @@ func runC19(e *Env) {
 	})
 	e.S.Floor("C19.lock", 3)
 	ruleRandomBits(e)
+	ruleRandomSource(e)
+	e.S.Floor("C19.source", 1)
+}
+
+// ruleRandomSource: C19.bits takes every draw for 63 fresh bits, each of which takes both values across draws. That is
+// math/rand's contract for its own sources; a source written in the module (a linear congruential generator keeps
+// its low bits on a short cycle) is not covered by it. Every value stored into the shared generator is
+// rand.New(rand.NewSource(·)).
+func ruleRandomSource(e *Env) {
+	const rule = "C19.source"
+	g := e.Var(rule, "uu", "random")
+	if g == nil {
+		return
+	}
+	n := 0
+	for _, fn := range flow.SortedFuncs(e.C.AllRepoFuncs()) {
+		for _, b := range fn.Blocks {
+			for _, in := range b.Instrs {
+				st, ok := in.(*ssa.Store)
+				if !ok || st.Addr != ssa.Value(g) {
+					continue
+				}
+				n++
+				site := flow.FnName(fn)
+				newCall, ok := st.Val.(*ssa.Call)
+				if !ok || calleeName(&newCall.Call) != "math/rand.New" || len(newCall.Call.Args) != 1 {
+					e.S.Bad(rule, site, "generator", "the shared generator is set to something other than rand.New(source)", e.posOf(st), "")
+					continue
+				}
+				src := newCall.Call.Args[0]
+				for i := 0; i < 4; i++ {
+					switch x := src.(type) {
+					case *ssa.MakeInterface:
+						src = x.X
+						continue
+					case *ssa.ChangeInterface:
+						src = x.X
+						continue
+					}
+					break
+				}
+				if sc, ok := src.(*ssa.Call); ok && calleeName(&sc.Call) == "math/rand.NewSource" {
+					e.S.Ok(rule, site, "generator", "rand.New(rand.NewSource(·)): the standard library's source, whose draws C19.bits takes for 63 fresh bits", e.posOf(st))
+				} else {
+					e.S.Bad(rule, site, "generator", "the shared generator draws from "+src.String()+", not from rand.NewSource: the quality of its bits (each taking both values across consecutive draws) is not math/rand's contract", e.posOf(st), "a linear congruential source: the lowest bit alternates, two draws per ID keep it constant")
+				}
+			}
+		}
+	}
+	if n == 0 {
+		e.S.Unk(rule, "uu.random", "generator", "no initialisation of the shared generator found", "")
+	}
 }
 
 // ruleRandomBits: C19.bits.
